@@ -31,12 +31,21 @@ Case(e) ==
       missing == {x \in DOMAIN exp : Count(got, x) < exp[x]}
       extra == {x \in DOMAIN got : Count(exp, x) < got[x]}
       prop == IF e.op = "join" THEN "C08" ELSE "C09"
+      (* C05: the operator behaved as if its state had survived the FlushAndRestart: the result is *)
+      (* what one iteration over the concatenated inputs would give                                 *)
+      flat == [x \in {"left", "right"} |-> FlatSeq(IF x = "left" THEN e.left ELSE e.right, 1)]
+      noReset == CASE e.op = "join"  -> Join(flat["left"], flat["right"], e.ml, e.mr, e.variant)
+                   [] e.op = "zip"   -> ZipComb(flat["left"], flat["right"])
+                   [] e.op = "merge" -> flat["left"] \o flat["right"]
+      carried == Len(e.left) >= 2 /\ got # exp /\ got = BagOf(noReset)
       V(kind, xs) == PrintT(<<"VIOL", ToJson([prop |-> prop, kind |-> kind, job |-> e.id, index |-> l,
                               extra |-> [op |-> e.op, variant |-> e.variant, values |-> xs,
                                          got |-> e.res, expected |-> Expected(e)]])>>)
   IN /\ (IF missing # {} THEN V(IF e.op = "join" THEN "join_missing_pair" ELSE e.op \o "_missing", missing) ELSE TRUE)
      /\ (IF extra # {} THEN V(IF e.op = "join" THEN "join_extra_pair" ELSE e.op \o "_extra", extra) ELSE TRUE)
-     /\ nviol' = nviol + (IF missing # {} THEN 1 ELSE 0) + (IF extra # {} THEN 1 ELSE 0)
+     /\ (IF carried THEN PrintT(<<"VIOL", ToJson([prop |-> "C05", kind |-> "carry_over", job |-> e.id, index |-> l,
+                                   extra |-> [op |-> e.op, variant |-> e.variant, got |-> e.res]])>>) ELSE TRUE)
+     /\ nviol' = nviol + (IF missing # {} THEN 1 ELSE 0) + (IF extra # {} THEN 1 ELSE 0) + (IF carried THEN 1 ELSE 0)
 
 Step ==
   /\ l <= Len(Rec)
